@@ -115,6 +115,9 @@ pub enum Error {
         source: serde_json::Error,
     },
 
+    #[error("Index hunk {hunk_number} was listed but is missing")]
+    IndexHunkMissing { hunk_number: u32 },
+
     #[error("Invalid metadata: {details}")]
     InvalidMetadata { details: String },
 
